@@ -715,6 +715,9 @@ def rule_loops(ctx):
             for k_, role_ in (('unsync.admit', 'unsync::cache::Cache::admit'), ('sync.admit', 'sync::base_cache::Inner::admit')):
                 if role_ in ptab:
                     ptab[_named(ctx, k_)] = ptab[role_]
+            from .roles import write_scheduler as _ws
+            if nid in _ws(ctx) and 'sync::cache::Cache::schedule_write_op' in ptab:
+                ptab[nid] = ptab['sync::cache::Cache::schedule_write_op']
             ent = ptab.get(nid)
             if not ent:
                 r.instance(function=nid, header='bb%d' % h, driver='UNCLASSIFIED')
